@@ -1524,6 +1524,21 @@ func (r *Runner) checkGauges(st Step) {
 		if lastChildOnly {
 			co = "after-child-only-batch"
 		}
+		// What is it that the lower level lacks?  If its content is a
+		// prefix of the history, the batches after that prefix are pending:
+		// either they carry operations (which the gauges could count) or
+		// they only create / delete child collections.
+		if e.Cfg.Backing == "store" {
+			pend := "lower-level-not-a-prefix"
+			if ks := e.World.Prefixes(tree.Hash()); len(ks) > 0 {
+				if e.World.PendingOps(ks[len(ks)-1]) == 0 {
+					pend = "pending-structure-only"
+				} else {
+					pend = "pending-data"
+				}
+			}
+			co = pend + "/" + co
+		}
 		r.viol("gauges", "zero-gauges-but-not-persisted/"+where, co,
 			fmt.Sprintf("Stats shows CurDirtyOps=CurDirtyBytes=CurDirtySegments=0 with n=%d batches, but lower level differs: %s", e.World.N(), m))
 	}
